@@ -17,7 +17,7 @@ FALLBACK_LIB = """test tldevel tlmisc tlrng esl_stopwatch msa_alloc msa_op msa_i
 msa_sort alphabet task bisectingKmeans sequence_distance bpm euclidean_dist pick_anchor aln_wrap aln_param
 aln_run aln_mem aln_setup aln_controller aln_seqseq aln_seqprofile aln_profileprofile weave_alignment""".split()
 
-WRAPS = ['fopen', 'stat', 'isatty', 'exit', 'time', 'clock', 'times',
+WRAPS = ['fopen', 'stat', 'isatty', 'exit', 'time', 'clock', 'times', 'fileno', 'open', 'read', 'write', 'lseek', 'close', 'fstat', 'access',
          'malloc', 'calloc', 'realloc', 'free', 'posix_memalign', 'aligned_alloc']
 
 SIM_SRC = ['driver.c', 'simomp.c', 'simfs.c', 'simclock.c', 'simalloc.c', 'hooks.c']
